@@ -47,7 +47,7 @@ def oracle_regex(pattern):
 
 
 def bounds(tier):
-    return dict(n_max=tier_pick(tier, 10, 14), shapes=len(SHAPES if tier != "quick" else SHAPES[:12]),
+    return dict(n_max=tier_pick(tier, 10, 14), shapes=len(SHAPES if tier != "quick" else SHAPES[:13]),
                 target_kinds=["Seq linear", "Seq searched with linear=False", "SeqRecord", "CircularRecord"],
                 pos_endpos="0..n+2 and default")
 
@@ -208,7 +208,7 @@ def ob_group(ctx):
 
 
 SHAPES = [
-    "GA(N*)TC", "GA(N*?)TC", "A(NN*N)(K)C", "(M)GN*?(T)", "R(N)Y", "(GG)N{1,3}(CC)",
+    "GNNNNNNNN(NN)C", "GA(N*)TC", "GA(N*?)TC", "A(NN*N)(K)C", "(M)GN*?(T)", "R(N)Y", "(GG)N{1,3}(CC)",
     "G(N)(N*)(N)C", "(S)(W+)(S)", "AN?T", "(A(N)T)", "C(N*)G(N*?)C", "(NN)(N*?)(NN)T",
     "GGTCTCN(NN)", "(B)(D*)(H)", "T(V+?)A", "(A)(C*)(G*)T", "N(N*?)N", "(K{2,3})M",
     "GAAGAC(NN)(N*?)A", "(Y)(R*)(Y)(R*?)G", "A(N{0,2})C", "((G)(N*))T", "W(S*?)W", "(N)(N)(N)",
@@ -224,7 +224,7 @@ def obligations(tier, seed):
         obs.append(Ob("letter %s vs all IUPAC letters" % code, ob_letter, dict(code=code, alphabet="IUPACcase"),
                       samples=8, cost=1))
     nmax = tier_pick(tier, 10, 14)
-    shapes = SHAPES[:12] if tier == "quick" else SHAPES
+    shapes = SHAPES[:13] if tier == "quick" else SHAPES
     kinds = ["seq", "seq-circ", "rec", "circ"]
     import random
 
@@ -237,6 +237,9 @@ def obligations(tier, seed):
                     ns.append(3 + (si % 3))
             else:
                 ns = list(range(max(2, nmax - 5), nmax + 1, 1 if kind == "circ" else 2))
+            from .rblock import fixed_letters
+
+            ns = sorted({max(n, fixed_letters(pat) + 1) if n > 6 else n for n in ns})
             for n in ns:
                 window = ((si + ki + n) % 2 == 0) if tier == "quick" else True
                 obs.append(Ob("search %s on %s n=%d %s" % (pat, kind, n, "pos/endpos" if window else "default-range"),
